@@ -669,3 +669,21 @@ def _pfe(eng, st, self_v, args, kwargs, node):
 
 
 S.ext_consts["subprocess._USE_VFORK"] = __import__("pyvc.values", fromlist=["VConst"]).VConst("subprocess._USE_VFORK")
+
+
+# iterators and generators (C03 part A) --------------------------------------
+S.cls("Iterator", {}, external=True)
+S.cls("ISlice", {"it": T.Ref("Iterator"), "n": T.Int}, external=True)
+S.ghost("it_seq", z3.ArraySort(T.IntS, z3.SeqSort(T.IntS)), "per iterator object: the finite sequence of items (object ids) it runs over (A-iter)")
+S.ghost("it_pos", z3.ArraySort(T.IntS, T.IntS), "per iterator object: number of items already consumed")
+S.ghost("gen_items", z3.SeqSort(T.IntS), "generator under verification: the values yielded so far (object ids)")
+S.ghost("gen_flat", z3.SeqSort(T.IntS), "generator of sequences under verification: concatenation of everything yielded so far")
+S.ghost("gen_n", T.IntS, "generator of sequences under verification: number of yields so far")
+
+
+@_impl("itertools.islice", cite="itertools.islice(it, n): lazily the next n items of it (fewer when it ends); consumed here only through tuple(...)")
+def _islice(eng, st, self_v, args, kwargs, node):
+    o = st.new_obj("ISlice")
+    st.write_field(o, "it", args[0])
+    st.write_field(o, "n", args[1])
+    return [eng.val(st, o)]
